@@ -270,7 +270,34 @@ func (g *Grammar) HasTerminal() bool {
 
 // Derive produces an input by a random derivation walk from rule start: mostly (not always) accepted.
 func Derive(r *rand.Rand, g *Grammar, start string, alphabet []rune) []rune {
+	out, _ := derive(r, g, start, alphabet, false)
+	return out
+}
+
+// DeriveSibling derives an input and then replaces, at one choice point of the derivation, the first rune of the
+// chosen alternative by a first rune of a sibling alternative ("5x1f" for ('0' [xX] hex+ / [0-9]+)): the rest of
+// the text still belongs to the chosen alternative. This separates a parser that checks the first character of
+// the alternative it enters from one that only dispatched on it.
+func DeriveSibling(r *rand.Rand, g *Grammar, start string, alphabet []rune) []rune {
+	out, cands := derive(r, g, start, alphabet, true)
+	if len(cands) == 0 || len(out) == 0 {
+		return out
+	}
+	c := cands[r.Intn(len(cands))]
+	if c.pos < len(out) {
+		out[c.pos] = c.c
+	}
+	return out
+}
+
+type sibling struct {
+	pos int
+	c   rune
+}
+
+func derive(r *rand.Rand, g *Grammar, start string, alphabet []rune, record bool) ([]rune, []sibling) {
 	var out []rune
+	var cands []sibling
 	budget := 300
 	var walk func(e *Expr, depth int)
 	walk = func(e *Expr, depth int) {
@@ -284,7 +311,27 @@ func Derive(r *rand.Rand, g *Grammar, start string, alphabet []rune) []rune {
 				walk(k, depth+1)
 			}
 		case KAlt:
-			walk(e.Kids[r.Intn(len(e.Kids))], depth+1)
+			i := r.Intn(len(e.Kids))
+			if record && budget > 100 {
+				p := len(out)
+				for j, k := range e.Kids {
+					if j == i {
+						continue
+					}
+					// first rune of a derivation of the sibling
+					saveOut, saveBudget := out, budget
+					out, budget = nil, 40
+					rec := record
+					record = false
+					walk(k, depth+1)
+					record = rec
+					if len(out) > 0 {
+						cands = append(cands, sibling{p, out[0]})
+					}
+					out, budget = saveOut, saveBudget
+				}
+			}
+			walk(e.Kids[i], depth+1)
 		case KQuery:
 			if r.Intn(2) == 0 {
 				walk(e.Kids[0], depth+1)
@@ -328,7 +375,7 @@ func Derive(r *rand.Rand, g *Grammar, start string, alphabet []rune) []rune {
 	if rr := g.Rule(start); rr != nil {
 		walk(rr.E, 0)
 	}
-	return out
+	return out, cands
 }
 
 // Mutate applies one random edit.
@@ -374,8 +421,47 @@ func Inputs(r *rand.Rand, g *Grammar, start string, n int, alphabet []rune) []st
 		}
 	}
 	add(nil)
-	for tries := 0; len(out) < n && tries < n*10; tries++ {
-		switch r.Intn(10) {
+	for tries := 0; len(out) < n+6 && tries < n*10; tries++ {
+		switch r.Intn(16) {
+		case 13, 14, 15:
+			// every single-substitution variant of one derivation (bounded)
+			base, cands := derive(r, g, start, alpha, true)
+			r.Shuffle(len(cands), func(i, j int) { cands[i], cands[j] = cands[j], cands[i] })
+			for k, c := range cands {
+				if k >= 6 || c.pos >= len(base) {
+					break
+				}
+				v := append([]rune{}, base...)
+				v[c.pos] = c.c
+				add(v)
+			}
+		case 10, 11, 12:
+			// cross-over of two derivations: the first rune(s) of one alternative followed by the rest of another,
+			// or one position exchanged; this is what separates "the case key was checked" from "it was assumed"
+			a, b := Derive(r, g, start, alpha), Derive(r, g, start, alpha)
+			if len(a) == 0 || len(b) == 0 {
+				add(a)
+				break
+			}
+			switch r.Intn(3) {
+			case 0:
+				k := 1 + r.Intn(2)
+				if k > len(b) {
+					k = len(b)
+				}
+				if k > len(a) {
+					k = len(a)
+				}
+				add(append(append([]rune{}, b[:k]...), a[k:]...))
+			case 1:
+				i, j := r.Intn(len(a)+1), r.Intn(len(b)+1)
+				add(append(append([]rune{}, a[:i]...), b[j:]...))
+			default:
+				i := r.Intn(min(len(a), len(b)))
+				c := append([]rune{}, a...)
+				c[i] = b[i]
+				add(c)
+			}
 		case 0, 1, 2, 3:
 			add(Derive(r, g, start, alpha))
 		case 4, 5, 6:
@@ -424,7 +510,14 @@ func ChoiceHeavy(r *rand.Rand) *Grammar {
 			g.names = append(g.names, fmt.Sprintf("R%d", i))
 		}
 		ch := func() rune { return alpha[r.Intn(len(alpha))] }
+		wide := len(alpha) > 20
 		term := func() *Expr {
+			if wide && r.Intn(8) == 0 {
+				// a wide class: it takes the role of the switch's default case, so that narrower multi-key
+				// alternatives become real cases
+				w := [][2]rune{{'a', 'm'}, {'n', 'z'}, {'0', '9'}, {'a', 'z'}, {'h', 'z'}}[r.Intn(5)]
+				return &Expr{K: KClass, Items: []Item{{w[0], w[1]}}}
+			}
 			switch r.Intn(7) {
 			case 0, 1, 2:
 				return &Expr{K: KLit, Text: []rune{ch()}}
